@@ -8,9 +8,9 @@ if ! diff -q /tmp/cur_$id.diff mutation/patch.diff >/dev/null; then echo "NOTE: 
 t=$(cargo test --offline 2>&1 | grep "test result" | head -1); echo "tests with change: $t"
 if [ -f mutation/demo.sh ]; then
   (timeout 600 sh mutation/demo.sh > /tmp/demo_with_$id.log 2>&1; echo "demo with change: exit $?")
-  git stash -q -- src
+  git apply -R /tmp/cur_$id.diff
   (timeout 600 sh mutation/demo.sh > /tmp/demo_without_$id.log 2>&1; echo "demo without change: exit $?")
-  git stash pop -q
+  git apply /tmp/cur_$id.diff
 else echo "no demo.sh"; fi
 git diff -- src > /tmp/cur2_$id.diff; diff -q /tmp/cur_$id.diff /tmp/cur2_$id.diff >/dev/null || echo "WARNING: worktree changed by demo"
 mkdir -p /verif/seeded/$id
